@@ -779,6 +779,29 @@ static int addRequest(KSI_AsyncClient *c, KSI_AsyncHandle *handle, void *req,
 	res = pdu_serialize(pdu, &raw, &len);
 	if (res != KSI_OK) goto cleanup;
 
+	if (hasConfig && hasRequest) {
+		KSI_Config *reqConf = NULL;
+		KSI_Config *confRef = NULL;
+
+		/* A multy-payload request: create a separate conf request handle, before the request is
+		 * handed over to the output queue and the request cache. */
+		res = req_new(c->ctx, &tmpReq);
+		if (res != KSI_OK) goto cleanup;
+
+		res = req_getConfig(req, &reqConf);
+		if (res != KSI_OK) goto cleanup;
+
+		res = req_setConfig(tmpReq, (confRef = KSI_Config_ref(reqConf)));
+		if (res != KSI_OK) {
+			KSI_Config_free(confRef);
+			goto cleanup;
+		}
+
+		res = asyncHandle_new(c->ctx, tmpReq, &confHandle);
+		if (res != KSI_OK) goto cleanup;
+		tmpReq = NULL;
+	}
+
 	handle->id = requestId;
 	handle->raw = raw;
 	raw = NULL;
@@ -802,26 +825,6 @@ static int addRequest(KSI_AsyncClient *c, KSI_AsyncHandle *handle, void *req,
 	if (hasConfig) {
 		/* Check if this is a multy-payload request. */
 		if (hasRequest) {
-			KSI_Config *reqConf = NULL;
-			KSI_Config *confRef = NULL;
-
-			/* Create a separate conf request handle. */
-			res = req_new(c->ctx, &tmpReq);
-			if (res != KSI_OK) goto cleanup;
-
-			res = req_getConfig(req, &reqConf);
-			if (res != KSI_OK) goto cleanup;
-
-			res = req_setConfig(tmpReq, (confRef = KSI_Config_ref(reqConf)));
-			if (res != KSI_OK) {
-				KSI_Config_free(confRef);
-				goto cleanup;
-			}
-
-			res = asyncHandle_new(c->ctx, tmpReq, &confHandle);
-			if (res != KSI_OK) goto cleanup;
-			tmpReq = NULL;
-
 			/* Copy the send state from the initial handle. */
 			confHandle->state = handle->state;
 			confHandle->reqTime = handle->reqTime;
